@@ -1,5 +1,6 @@
 // harness — generates scratch packages, runs the goderive built from /repo on them, runs
-// the drivers and writes observation files for modeleval.
+// the drivers and writes observation files for modeleval.  One package per property
+// (internal/cNN); this file is only the table.
 package main
 
 import (
@@ -8,39 +9,77 @@ import (
 	"os"
 	"path/filepath"
 
+	"verifharness/internal/c01"
+	"verifharness/internal/c02"
+	"verifharness/internal/c03"
+	"verifharness/internal/c04"
+	"verifharness/internal/c05"
+	"verifharness/internal/c06"
+	"verifharness/internal/c07"
+	"verifharness/internal/c08"
+	"verifharness/internal/c09"
+	"verifharness/internal/c10"
+	"verifharness/internal/c11"
+	"verifharness/internal/c12"
+	"verifharness/internal/c13"
+	"verifharness/internal/c14"
+	"verifharness/internal/c15"
+	"verifharness/internal/c16"
 	"verifharness/internal/c17"
+	"verifharness/internal/c18"
+	"verifharness/internal/c19"
+	"verifharness/internal/c20"
 	"verifharness/internal/hx"
 )
 
+var table = map[string]func(hx.Config) (*hx.Meta, error){
+	"C01": c01.Run,
+	"C02": c02.Run,
+	"C03": c03.Run,
+	"C04": c04.Run,
+	"C05": c05.Run,
+	"C06": c06.Run,
+	"C07": c07.Run,
+	"C08": c08.Run,
+	"C09": c09.Run,
+	"C10": c10.Run,
+	"C11": c11.Run,
+	"C12": c12.Run,
+	"C13": c13.Run,
+	"C14": c14.Run,
+	"C15": c15.Run,
+	"C16": c16.Run,
+	"C17": c17.Run,
+	"C18": c18.Run,
+	"C19": c19.Run,
+	"C20": c20.Run,
+}
+
 func main() {
+	var cfg hx.Config
 	prop := flag.String("prop", "", "property id")
-	gd := flag.String("goderive", "", "path of the goderive binary built from /repo")
-	work := flag.String("work", "", "scratch directory (outside /repo and /verif)")
-	out := flag.String("out", "", "directory for observation files and meta.json")
-	seed := flag.Uint64("seed", 1, "seed")
-	tier := flag.String("tier", "quick", "quick|thorough")
-	corpus := flag.String("corpus", "", "directory with the regression corpus of this property")
-	_ = corpus
+	flag.StringVar(&cfg.Goderive, "goderive", "", "path of the goderive binary built from the repository under test")
+	flag.StringVar(&cfg.Repo, "repo", "/repo", "the repository under test (source tree)")
+	flag.StringVar(&cfg.Work, "work", "", "scratch directory (outside /repo and /verif)")
+	flag.StringVar(&cfg.Out, "out", "", "directory for observation files and meta.json")
+	flag.Uint64Var(&cfg.Seed, "seed", 1, "seed")
+	flag.StringVar(&cfg.Tier, "tier", "quick", "quick|thorough")
+	flag.StringVar(&cfg.Corpus, "corpus", "", "directory with the regression corpus of this property")
+	flag.StringVar(&cfg.Verif, "verif", "", "the /verif tree (for corpus, modeleval, coq)")
 	flag.Parse()
-	if *prop == "" || *work == "" || *out == "" {
+	run, ok := table[*prop]
+	if !ok || cfg.Work == "" || cfg.Out == "" {
 		fmt.Fprintln(os.Stderr, "usage: harness -prop Cxx -goderive BIN -work DIR -out DIR [-seed N] [-tier quick|thorough]")
 		os.Exit(2)
 	}
-	os.MkdirAll(*work, 0o755)
-	os.MkdirAll(*out, 0o755)
-	var meta *hx.Meta
-	var err error
-	switch *prop {
-	case "C17":
-		meta, err = c17.Run(c17.Config{Goderive: *gd, Work: *work, Out: *out, Seed: *seed, Tier: *tier})
-	default:
-		err = fmt.Errorf("unknown property %s", *prop)
-	}
+	os.MkdirAll(cfg.Work, 0o755)
+	os.MkdirAll(cfg.Out, 0o755)
+	meta, err := run(cfg)
 	if err != nil {
 		fmt.Fprintln(os.Stderr, "harness error:", err)
 		os.Exit(3)
 	}
-	if err := meta.Write(filepath.Join(*out, "meta.json")); err != nil {
+	if err := meta.Write(filepath.Join(cfg.Out, "meta.json")); err != nil {
 		fmt.Fprintln(os.Stderr, "harness error:", err)
 		os.Exit(3)
 	}
